@@ -233,8 +233,8 @@ theorem closed_integrate (o : Obj) (t : Tbl o) (st : LState) (hst : Inv o st) (v
     (`i1+1 … i2`, plus the end knot when a limit lies in the extrapolation zone, fix ede24b1) -/
 def extVal (o : Obj) (isMax : Bool) (v1 v2 fl fr : Rat) (i1 i2 : Nat) : Rat :=
   let pick := if isMax then rmax else rmin
-  let first := if v1 < o.x 0 then i1 else i1 + 1
-  let last := if v2 > o.x (o.N - 1) then i2 + 1 else i2
+  let first := if v1 < o.x 0 ∧ v2 ≥ o.x 0 then i1 else i1 + 1
+  let last := if v2 > o.x (o.N - 1) ∧ v1 ≤ o.x (o.N - 1) then i2 + 1 else i2
   if first > last then pick fl fr
   else
     let ks := o.knotValues first last
@@ -254,8 +254,8 @@ def pLocalExt (o : Obj) (isMax : Bool) (v1 v2 : Rat) : Except Err Rat :=
 /-- the last stage of `Local_*` -/
 def extFin (o : Obj) (isMax : Bool) (v1 v2 fl fr : Rat) (i1 i2 : Nat) (od : Obj) : Except Err (Rat × Obj) :=
   let pick := if isMax then rmax else rmin
-  let first := if v1 < o.x 0 then i1 else i1 + 1
-  let last := if v2 > o.x (o.N - 1) then i2 + 1 else i2
+  let first := if v1 < o.x 0 ∧ v2 ≥ o.x 0 then i1 else i1 + 1
+  let last := if v2 > o.x (o.N - 1) ∧ v1 ≤ o.x (o.N - 1) then i2 + 1 else i2
   if first > last then pure (pick fl fr, od)
   else
     let ks := o.knotValues first last
@@ -267,8 +267,8 @@ theorem extFin_eq (o : Obj) (isMax : Bool) (v1 v2 fl fr : Rat) (i1 i2 : Nat) (od
     extFin o isMax v1 v2 fl fr i1 i2 od = .ok (extVal o isMax v1 v2 fl fr i1 i2, od) := by
   unfold extFin extVal
   simp only
-  generalize (if v1 < o.x 0 then i1 else i1 + 1) = first
-  generalize (if v2 > o.x (o.N - 1) then i2 + 1 else i2) = last
+  generalize (if v1 < o.x 0 ∧ v2 ≥ o.x 0 then i1 else i1 + 1) = first
+  generalize (if v2 > o.x (o.N - 1) ∧ v1 ≤ o.x (o.N - 1) then i2 + 1 else i2) = last
   by_cases h : first > last
   · simp only [h, if_true]; rfl
   · simp only [h, if_false]; rfl
